@@ -226,7 +226,9 @@ impl AsmParser {
                     }
                 };
 
-                let len = if self.tok_end < tok.span.offs() {
+                // No operand was consumed for this statement (`tok_end` still belongs to an earlier
+                // one, or to nothing at all if this is the very first token of the file)
+                let len = if self.tok_end <= tok.span.offs() {
                     tok.span.len()
                 } else {
                     self.tok_end - tok.span.offs()
